@@ -529,13 +529,40 @@ pub fn authurl(ws: &[&str]) -> String {
         Ok(u) => u,
         Err(_) => return BAD.into(),
     };
-    let mut client = BasicClient::new(ClientId::new(id)).set_auth_uri(url);
+    // the redirect is configured FIRST, then (in half of the cases) every other setter runs — each
+    // of the typestate setters rebuilds the client and must carry the redirect and the id along —
+    // and the authorization endpoint is set last
+    let rest_after = ws.iter().flat_map(|w| w.bytes()).fold(0xcbf29ce484222325u64, |h, b| (h ^ b as u64).wrapping_mul(0x100000001b3)) >> 31 & 1 == 0;
+    let mut client = BasicClient::new(ClientId::new(id));
     if let Some(r) = defred {
         match RedirectUrl::new(r) {
             Ok(u) => client = client.set_redirect_uri(u),
             Err(_) => return BAD.into(),
         }
     }
+    let client = if rest_after {
+        client
+            .set_auth_type(AuthType::RequestBody)
+            .set_client_secret(ClientSecret::new("decoy-secret".to_string()))
+            .set_token_uri(TokenUrl::new("https://decoy.example/token".to_string()).unwrap())
+            .set_device_authorization_url(DeviceAuthorizationUrl::new("https://decoy.example/dev".to_string()).unwrap())
+            .set_introspection_url(IntrospectionUrl::new("https://decoy.example/introspect".to_string()).unwrap())
+            .set_revocation_url(RevocationUrl::new("https://decoy.example/revoke".to_string()).unwrap())
+            .set_auth_uri(AuthUrl::new("https://decoy.example/auth".to_string()).unwrap())
+            .set_token_uri_option(None)
+            .set_device_authorization_url_option(None)
+            .set_introspection_url_option(Some(IntrospectionUrl::new("https://decoy2.example/introspect".to_string()).unwrap()))
+            .set_revocation_url_option(None)
+            .set_auth_uri_option(None)
+            .set_auth_uri(url)
+    } else {
+        client
+            .set_token_uri_option(None)
+            .set_device_authorization_url_option(None)
+            .set_introspection_url_option(None)
+            .set_revocation_url_option(None)
+            .set_auth_uri(url)
+    };
     let calls = std::cell::Cell::new(0u32);
     let mut req = client.authorize_url(|| {
         calls.set(calls.get() + 1);
